@@ -115,6 +115,7 @@ def main(argv=None):
                 probe.S.busy = 0
                 probe.S.depth = 0
                 del probe.S.targets[:]
+                del probe.S.apis[:]
                 probe.monitor_error('driver', wl.name)
             ctx.timing[wl.name] = ctx.timing.get(wl.name, 0.0) + time.time() - tc
     probe.disarm()
